@@ -9,7 +9,7 @@ TRUSTED_BASE = [
 ]
 
 NOT_APPLICABLE = {
-    'C02': 'relation between two whole-program executions (two spellings of a loop/branch) through code generator and VM: no function has both spellings as inputs and no data structure carries the relation, so no contract within reach of Verus/Kani can state it; its only local premise (generated labels are unique) is a caller obligation of the label resolver that only a proof of the whole generator could discharge (recorded as undischarged under C15)',
+    'C02': 'relation between two whole-program executions (two spellings of a loop/branch) through code generator and VM: no function has both spellings as inputs and no data structure carries the relation, so no contract within reach of Verus/Kani can state it. Its local premises are claimed where they live: every generated label is defined once and the FOR body is emitted once whatever the STEP (C15, unit gen_labels; false until repair 57), every generated branch lands on a label of its own statement and the stacks balance (C15), the control arms of the VM (C05), the truth test of JumpIfFalse (C01); what is missing is the semantic equivalence of two different instruction sequences, which is a simulation argument over whole executions',
 }
 
 
